@@ -25,6 +25,7 @@ THEOREMS = [
     "PV.C18.format_float_eq_partial",
     "PV.C18.formatFloat_eq",
     "PV.C18.general_eq_layout",
+    "PV.C18.genDigits_all",
     "PV.C18.repr_eq_layout",
     "PV.C18.float_assemble",
     "PV.C18.no_panic_str",
@@ -83,11 +84,12 @@ PARTIAL = [
     "of 2^30 or more characters; each remaining deviating shape is a listed known finding with a decide'd witness "
     "(Thm.lean section 7)",
     "format_float_eq_partial is relative to explicit, decidable digit-generation facts about PV.Dec (FloatDigitFacts): "
-    "GenDigits for g/G/n and precision-without-type (rounding to P significant digits and to P-1-X decimals give the "
-    "same digits), x*100 is a non-negative non-NaN double for '%', ReprDigits for the repr-style presentation "
-    "(CPython's and Rust's shortest digits agree - false exactly on the listed finding float-repr-tie-rounds-up -, "
-    "integers have their integer digits, non-integers a fraction); nothing for e/E/f/F. The facts are evaluated by "
-    "the driver on every double of the run (coverage.float_digit_facts), not proved for all doubles",
+    "x*100 is a non-negative non-NaN double for '%', ReprDigits for the repr-style presentation (no type, no precision: "
+    "CPython's and Rust's shortest digits agree - false exactly on the listed finding float-repr-tie-rounds-up -, "
+    "integers have their integer digits, non-integers a fraction); NOTHING for e/E/f/F/g/G/n and precision-without-type "
+    "(genDigits_all proves for every double that rounding to P significant digits and to P-1-X decimals give the same "
+    "digits). The two remaining facts are evaluated by the driver on every double of the run "
+    "(coverage.float_digit_facts), not proved for all doubles",
     "parse_spec_complete_partial: the 'z' flag, widths above i32::MAX and precisions above isize::MAX are rejected by "
     "the parser (the latter two also by CPython: MemoryError / 'Too many decimal digits')",
 ]
@@ -697,7 +699,7 @@ def _validate_spec(ctx):
         "pairs": tot, "in_domain": ins, "in_domain_with_known_shape": clash, "examples": clashes,
         "outside_domain_without_known_shape": free_out}
     ctx.extra["float_digit_facts"] = {
-        "what": "FloatDigitFacts (GenDigits / ReprDigits / '%' product facts of PV.Dec: the hypothesis of "
+        "what": "FloatDigitFacts (ReprDigits / '%' product facts of PV.Dec: the hypothesis of "
                 "format_float_eq_partial) decided by the driver for every (spec, double) pair above",
         "pairs": ftot, "in_domain_and_facts_hold": fin, "facts_false": ffalse,
         "facts_false_not_explained_by_repr_tie_finding": ffalse_unexplained, "examples": fex}
